@@ -2,6 +2,7 @@ package c02
 
 import (
 	"fmt"
+	"strings"
 	"time"
 
 	"github.com/jcmturner/gokrb5/v8/keytab"
@@ -32,13 +33,25 @@ func newVerifyWorld(tp *Tape, base time.Time) (*verifyWorld, error) {
 	}
 	w := &verifyWorld{tp: tp, base: base}
 	w.ktm = world.BuildKeytab(tp.RunSeed, []string{"HTTP/s1", "HTTP/s2"}, []string{"SIM.TEST"}, []int{2}, []int{tp.Etype})
+	// service aliases: HTTP/a1 and HTTP/a2 are further names of the accounts of s1 and s2 and share
+	// their keys (as service principal names of one account do)
+	for _, e := range append([]world.KtEntry{}, w.ktm.Entries...) {
+		a := e
+		a.Principal = "HTTP/a" + strings.TrimPrefix(e.Principal, "HTTP/s")
+		w.ktm.Entries = append(w.ktm.Entries, a)
+	}
 	kt := keytab.New()
 	if err := kt.Unmarshal(w.ktm.Bytes()); err != nil {
 		return nil, err
 	}
 	w.settings = service.NewSettings(kt, service.MaxClockSkew(time.Duration(tp.SkewS)*time.Second), service.DecodePAC(false))
 	if tp.AltMs != 0 {
-		w.alt = service.NewSettings(kt, service.MaxClockSkew(time.Duration(tp.AltMs)*time.Millisecond), service.DecodePAC(false))
+		opts := []func(*service.Settings){service.MaxClockSkew(time.Duration(tp.AltMs) * time.Millisecond), service.DecodePAC(false)}
+		if tp.AltKt != "" {
+			// the override names the alias of that service's account
+			opts = append(opts, service.KeytabPrincipal("HTTP/a"+strings.TrimPrefix(tp.AltKt, "s")))
+		}
+		w.alt = service.NewSettings(kt, opts...)
 	}
 	return w, nil
 }
@@ -73,7 +86,7 @@ func (w *verifyWorld) present(op Op, ct time.Time) string {
 		ap.Ticket.SName.Type = op.SvcNT // clear-text field of the ticket
 	}
 	st := w.settings
-	if op.Alt && w.alt != nil {
+	if op.Alt && w.alt != nil && (w.tp.AltKt == "" || w.tp.AltKt == op.Svc) {
 		st = w.alt
 	}
 	var g messages.APReq
